@@ -474,8 +474,10 @@ reg(
     "yq_runner::yaml_quote_key, jq::stream::needs_yaml_quoting, yaml::light::needs_yaml_quoting) is evaluated from MIR on a string family covering every spelling the loader's "
     "plain-scalar resolver recognises (with prefix/suffix/case variants), every ASCII character as first/last/only character, and the lexical hazards; whenever a value is let through "
     "plain, the loader's own yaml::scalar::resolve_plain (evaluated from MIR) must resolve it to a string, and the text must be lexically a plain scalar for this loader. "
-    "Alias/anchor soundness of the streaming emitter (repo issue #1350), block structure, indentation indicators and comments are not decided (the seeded C15 change is not caught).",
-    [only_cfgs(_lazy("yamlquote", "rule_yaml_quoting"), ["cli"])],
+    "YAMLEMIT decides the identity clause on a sample of the generated presentation space: load, print with YamlCursor::stream_yaml_document (indent 2 and 4; "
+    "thorough 1..7), load the printed text again, compare with the first load's JSON (block structure, indentation indicators, re-quoting, anchors and aliases "
+    "as printed). Write programs (assignment, update, deletion, merge) and the CLI runner's alias bookkeeping are not evaluated.",
+    [only_cfgs(_lazy("yamlquote", "rule_yaml_quoting"), ["cli"]), only_cfgs(_lazy("yamlemit", "rule_emit"), ["cli"])],
     quick=["cli"],
     technique="finite-domain evaluation of writer deciders and the reader's resolver from MIR (writer/reader table agreement)",
 )
